@@ -282,6 +282,13 @@ func runC05(c *core.Ctx) {
 	}
 	id := 0
 	next := func() int { id++; return id }
+	if core.Mix(uint64(i), 0xd0b)%5 == 0 {
+		// one case in five: items repeat, equal ones next to each other (runs of
+		// three over four values) - whoever drops, merges or deduplicates equal
+		// neighbours is invisible while every item is unique
+		next = func() int { id++; return (id/3)%4 + 1 }
+		c.Count("items:repeating-runs", 1)
+	}
 	c.SetGaps((i/6)%2 == 1)
 	var m *LinMon[int]
 	switch i % 6 {
@@ -380,6 +387,7 @@ func init() {
 			"Non-trivial: the case made calls and every one was followed by the Values/Size/Empty/Full comparison; distinct = distinct hash of the call list.", len(ringPlan)-1, ringCaps),
 		Floors: func(tier string, m map[string]int64) []string {
 			f := &floorCheck{m: m}
+			f.atLeast("items:repeating-runs", 2000)
 			f.atLeast("ring:sweep-states", 1938) // sum of c*(c+1) for c = 1..17
 			f.atLeast("ring:overwrite", 1000)
 			f.atLeast("obs:take-on-empty", 1000)
